@@ -487,7 +487,10 @@ func doC11(ctx context.Context, w *out.Writer, r *rand.Rand, c *sdump.Config, ro
 	}
 	size := ttSizes[r.Intn(len(ttSizes))]
 	tt := &sdump.RecTT{Inner: search.NewTranspositionTable(ctx, size)}
-	scen := r.Intn(5)
+	scen := r.Intn(8) // iterative deepening (0, 5, 6, 7) half of the time: each iteration finds the entries of the one before
+	if scen >= 5 {
+		scen = 0
+	}
 	var depths []int
 	switch scen {
 	case 3: // a shallower search after a deeper one
